@@ -335,7 +335,7 @@ def _count_steps(case):
 
 
 def jobs(tier, seed):
-    n, shards = (2400, 8) if tier == "quick" else (36000, 16)
+    n, shards = (2400, 8) if tier == "quick" else (144000, 16)
     out = [{"name": f"hyp-{i}", "kind": "hyp", "seed": seed * 1000 + i, "n": n // shards} for i in range(shards)]
     of = 4 if tier == "quick" else 16
     for fi in range(len(FIXED)):
